@@ -8,7 +8,7 @@ import sys
 import tempfile
 
 from .. import common
-from ..common import V, ctext, clist, copt
+from ..common import V, ctext, clist, copt, cbool, cnat
 
 sys.path.insert(0, os.path.join(common.VERIF, 'gen'))
 
@@ -135,6 +135,102 @@ def which_corr(ctx, pexpect, n):
         U.os.environ = real_env
     ctx.run_cases('which-corr', ['Split.Which'], 'which_case',
                   'text * option (option text) * option text * list text * text', cases)
+
+
+def launch_prep(ctx, pexpect, n):
+    """job spawn-prep: the REAL pexpect.spawn(...) constructor with _spawnpty replaced by a recorder: argv, name and keyword
+    arguments handed to ptyprocess against Launch/Model.v (executability and PATH scripted as in which-corr)"""
+    import pexpect.utils as U
+    import pexpect.pty_spawn as ps
+    rng = ctx.rng
+    names = ['x', 'prog', 'd/x', '/abs/x', './x']
+    dirs = ['/a', '/b', 'rel', '', '/a/', '.', '/c']
+    words = ['x', 'prog', 'd/x', '/abs/x', 'a b', 'it\'s', 'q"q', '-l', 'back\\slash', 'é']
+    cases = []
+    real_env, real_is, real_spawnpty = os.environ, U.is_executable_file, ps.spawn._spawnpty
+    rec = {}
+
+    class FakeProc:
+        pid, fd = 4242, 987
+        closed = True
+
+    def fake_spawnpty(self, args, **kw):
+        rec['args'], rec['kw'] = list(args), dict(kw)
+        return FakeProc()
+    ps.spawn._spawnpty = fake_spawnpty
+    try:
+        for i in range(n):
+            def mkpath():
+                r = rng.random()
+                if r < 0.15:
+                    return None
+                if r < 0.25:
+                    return ''
+                return ':'.join(rng.choice(dirs) for _ in range(rng.randint(1, 3)))
+            envp, osp = mkpath(), mkpath()
+            env = None if rng.random() < 0.4 else ({} if envp is None else {'PATH': envp})
+            argv = [rng.choice(names)] + [rng.choice(words) for _ in range(rng.randint(0, 3))]
+            mode = rng.random()
+            if mode < 0.5:
+                def q(a):
+                    style = rng.choice('bsd')
+                    if style == 's':
+                        return "'" + a.replace("'", "'\\''") + "'"
+                    if style == 'd' and '"' not in a:
+                        return '"' + a + '"'
+                    return ''.join('\\' + c for c in a)
+                command, args = rng.choice(['', ' ', '\t']) + rng.choice([' ', '  ', '\t']).join(q(a) for a in argv) + rng.choice(['', ' ']), []
+            elif mode < 0.6:
+                command, args = rng.choice(['', '   ', '\t\n']), []
+            else:
+                command, args = argv[0], argv[1:] or [rng.choice(words)]
+            cand = set()
+            first = argv[0]
+            for d in dirs + os.defpath.split(':'):
+                cand.add(os.path.join(d, first))
+            cand.add(first)
+            execs = sorted(c for c in cand if rng.random() < 0.35)
+            echo = rng.random() < 0.5
+            dims = None if rng.random() < 0.5 else (rng.randint(1, 60), rng.randint(1, 200))
+            hup = rng.random() < 0.5
+            pre = (lambda: None) if rng.random() < 0.3 else None
+            U.is_executable_file = lambda p, _e=frozenset(execs): p in _e
+            U.os.environ = {} if osp is None else {'PATH': osp}
+            rec.clear()
+            cwd = rng.choice([None, '/tmp'])
+            try:
+                try:
+                    c = pexpect.spawn(command, args, env=env, cwd=cwd, echo=echo, dimensions=dims, ignore_sighup=hup, preexec_fn=pre)
+                    c.closed = True
+                    res = [0, [a for a in rec['args']], c.name]
+                    kw = rec['kw']
+                    pf = kw.get('preexec_fn')
+                    wrapper = pf is not None and getattr(pf, '__name__', '') == 'preexec_wrapper'
+                    kobs = [kw.get('echo'), None if 'dimensions' not in kw else [list(kw['dimensions'])], wrapper, (pf is pre) if not wrapper else pre is not None]
+                    if pre is None and not wrapper:
+                        kobs[3] = False
+                    if kw.get('env') is not env or kw.get('cwd') is not cwd:
+                        ctx.hit('C13/launch-passthrough', 'spawn(env=%r, cwd=%r) handed env=%r cwd=%r to ptyprocess' % (env, cwd, kw.get('env'), kw.get('cwd')), {})
+                except IndexError:
+                    res, kobs = [1], None
+                except pexpect.ExceptionPexpect as e:
+                    msg = str(e)
+                    res, kobs = [2, msg.split('executable: ', 1)[1][:-1] if 'executable: ' in msg else msg], None
+            finally:
+                U.os.environ = real_env
+            if kobs is None:
+                kobs = [echo, None if dims is None else [list(dims)], hup, pre is not None]
+            envc = 'None' if env is None else '(Some %s)' % copt(env.get('PATH'), ctext)
+            inp = '(%s, %s, %s, %s, %s, %s, %s, %s, %s, %s)' % (
+                ctext(command), clist([ctext(a) for a in args]), envc, copt(osp, ctext), clist([ctext(e) for e in execs]), ctext(os.defpath),
+                cbool(echo), copt(dims, lambda d: '(%s, %s)' % (cnat(d[0]), cnat(d[1]))), cbool(hup), cbool(pre is not None))
+            cases.append((inp, [res, kobs], {'command': command, 'args': args, 'env': env, 'os_PATH': osp, 'executables': execs}))
+    finally:
+        U.is_executable_file = real_is
+        U.os.environ = real_env
+        ps.spawn._spawnpty = real_spawnpty
+    ctx.run_cases('spawn-prep', ['Split.Which', 'Launch.Model', 'Launch.Run'], 'launch_case',
+                  'list N * list (list N) * option (option (list N)) * option (list N) * list (list N) * list N * bool * option (nat * nat) * bool * bool', cases)
 
 
 def oracle_which_layouts(ctx, pexpect):
@@ -341,7 +437,7 @@ def run(ctx):
     ctx.assumptions += ['str.isspace() of CPython is the table in Base/Chars.v (validated exhaustively this run)',
                         'launch part (cwd/env/winsize/echo/SIGHUP) is decided by ptyprocess + kernel: observed with probe children, not proved']
     ok_gen = ctx.regenerate('Gen/SplitCmd.v', lambda: split_translate.generate(common.REPO))
-    proofs_ok = ctx.build('Props/C13.v') if ok_gen else False
+    proofs_ok = ctx.build('Props/C13.v', extra=['Launch/Run.v']) if ok_gen else False
     # correspondence: only meaningful when the generated model at least compiles
     gen_vo = os.path.exists(os.path.join(common.COQ, 'Gen/SplitCmd.vo'))
     if ok_gen and gen_vo:
@@ -350,6 +446,8 @@ def run(ctx):
     which_vo = os.path.exists(os.path.join(common.COQ, 'Split/Which.vo'))
     if which_vo:
         which_corr(ctx, pexpect, 20000 if thorough else 2000)
+        if os.path.exists(os.path.join(common.COQ, 'Launch/Run.vo')):
+            launch_prep(ctx, pexpect, 10000 if thorough else 1500)
     broken = bool(ctx.proof_broken or ctx.corr_broken)
     # direct oracle (larger budget when a proof or the correspondence broke: search for the failing input)
     oracle_roundtrip(ctx, pexpect, (200000 if thorough else 20000) * (3 if broken else 1))
